@@ -1,7 +1,6 @@
 package main
 
 import (
-	"sync"
 	"bufio"
 	"encoding/json"
 	"fmt"
@@ -11,6 +10,7 @@ import (
 	"path/filepath"
 	"strconv"
 	"strings"
+	"sync"
 	"time"
 
 	"github.com/markkurossi/mpc/circuit"
@@ -44,9 +44,9 @@ type fault struct {
 	off   int
 	kind  string // flip, replace, burst, trunc, pair, burstff
 	mask  byte
-	off2  int  // pair: second offset
-	count int  // burstff: length
-	must  bool // never sub-sampled
+	off2  int          // pair: second offset
+	count int          // burstff: length
+	must  bool         // never sub-sampled
 	setv  map[int]byte // setbytes: replacement bytes by absolute offset
 }
 
@@ -261,6 +261,16 @@ func c16Child(c *Ctx) error {
 		cseed := r.s
 		opts := GenOpts{MinIn: 2, MaxIn: 6, MinGates: 5, MaxGates: 14, MaxOut: 4, Overwrite: false, TwoParty: true}
 		circ := GenCircuit(r, opts)
+		// every other circuit: the configured entropy source (env.Config.Rand) hands out at most
+		// 32 bytes per Read call (legal for an io.Reader); the garbler has at least 4 input
+		// wires, all 1, so that the label sent for each of them is L1
+		shortReads := ci%2 == 1
+		if shortReads {
+			opts.MinIn, opts.MaxIn = 7, 9
+			for circ = GenCircuit(r, opts); circ.Inputs[0].Type.Bits < 4; {
+				circ = GenCircuit(r, opts)
+			}
+		}
 		n0 := int(circ.Inputs[0].Type.Bits)
 		n1 := int(circ.Inputs[1].Type.Bits)
 		no := circ.Outputs.Size()
@@ -268,7 +278,7 @@ func c16Child(c *Ctx) error {
 		x := make([]bool, n0)
 		y := make([]bool, n1)
 		for k := range x {
-			x[k] = r.Bool()
+			x[k] = r.Bool() || shortReads
 		}
 		for k := range y {
 			y[k] = r.Bool()
@@ -279,6 +289,9 @@ func c16Child(c *Ctx) error {
 		run := func(f *fault) (*sessionResult, *blockLog) {
 			sr := NewRNG(sessSeed)
 			grand := &blockLog{r: sr.Fork(), skipKey: true}
+			if shortReads {
+				grand.maxRead = 32
+			}
 			var tw func(g2e, e2g *fragQueue)
 			if f != nil {
 				tw = f.apply
@@ -745,8 +758,8 @@ func c16StreamChild(c *Ctx, w *bufio.Writer, startAt int, part int) error {
 func c16WideInputs(c *Ctx, w *bufio.Writer, startAt int, seed uint64) error {
 	src := "package main\nfunc main(a, b uint256) uint256 {\n\treturn a ^ b\n}\n"
 	one := big.NewInt(1)
-	av := new(big.Int).Lsh(one, 255)                              // wire 255 = 1
-	av.Or(av, big.NewInt(0x5a5a))                                 //
+	av := new(big.Int).Lsh(one, 255)                                  // wire 255 = 1
+	av.Or(av, big.NewInt(0x5a5a))                                     //
 	bv := new(big.Int).Sub(new(big.Int).Lsh(one, 200), big.NewInt(2)) // wire 256 = 0, 257.. = 1
 	want := []*big.Int{new(big.Int).Xor(av, bv)}
 	gIn, eIn := []string{av.String()}, []string{bv.String()}
